@@ -473,8 +473,16 @@ func (c *Ctx) alwaysWrites(fn *ssa.Function, pi int, depth int) (bool, token.Pos
 		}
 		return false
 	}
+	isTransport := func(v ssa.Value) bool {
+		return typeIs(v.Type(), modPath+"/cmd/rdpgw/transport", "Transport")
+	}
 	for _, r := range returnsOf(fn) {
 		if reachFromWithoutMarkerAvoiding(fn.Blocks[0], r, marker, nil) {
+			// a return taken only when there is no transport at all (nil leg): nothing could have
+			// been written, and no client is waiting on that leg
+			if okNil, _ := mustPass(fn, r, GEq(isTransport, anyNil)); okNil {
+				continue
+			}
 			return false, r.Pos()
 		}
 	}
